@@ -266,7 +266,9 @@ func (m *multi) returnResults(msg proto.Message, err error) {
 
 			err := exceptionToError(e.GetName(), string(e.Value))
 			for j, c := range m.calls {
-				if c == nil {
+				// A call that got its result belongs to its caller again,
+				// which may be retrying it and setting its region.
+				if c == nil || returned[j] {
 					continue
 				}
 				if c.Region() == reg {
